@@ -98,7 +98,10 @@ func corr(a map[string]string) {
 
 	// 1. corpus first
 	corpusFiles := 0
-	if dir := os.Getenv("VERIF_CORPUS"); dir != "" && (a["bind"] == "" || a["bind"] == "0") {
+	bound := a["bind"] != "" && a["bind"] != "0"
+	zeroHex := strings.Repeat("00", 20)
+	tokHex := func() string { t := account.VerifTokenContract(); return hx.Hex(t[:]) }()
+	if dir := os.Getenv("VERIF_CORPUS"); dir != "" {
 		files, _ := filepath.Glob(filepath.Join(dir, "*.ops"))
 		sort.Strings(files)
 		for _, f := range files {
@@ -112,7 +115,20 @@ func corr(a map[string]string) {
 				if l == "" || strings.HasPrefix(l, "#") {
 					continue
 				}
-				// corpus files are written for the unbound configuration; rewrite the header for this process
+				// corpus files are written for the unbound configuration (token contract = zero address);
+				// with a bound token contract the same history is replayed with that contract instead
+				if bound {
+					l = strings.ReplaceAll(l, zeroHex, tokHex)
+					if f := strings.Fields(l); len(f) == 3 && f[0] == "balkey" {
+						if x, ok := addrOf(f[1]); ok && w.adb != nil {
+							pos := uint64(3)
+							if common.IsSub() {
+								pos = 4
+							}
+							l = "balkey " + f[1] + " " + hx.Hex(w.adb.GetERC20Key(x, pos)) // pure function of (addr, pos)
+						}
+					}
+				}
 				do(l)
 			}
 		}
